@@ -716,6 +716,37 @@ impl Ctx {
     }
 }
 
+/// History monitor, cold start: every case is evaluated as the *first* library call of a freshly spawned thread
+/// (thread-local caches / memos are in their initial state there). Pure functions must not care.
+pub fn cold_threads<C, F>(st: &mut Stats, stratum: &str, cases: Vec<C>, check: F)
+where
+    C: Case + Send + 'static,
+    F: Fn(&mut Stats, &C) + Send + Sync + Copy + 'static,
+{
+    st.stratum(stratum, true);
+    let name = stratum.to_string();
+    let shard = st.seq_shard;
+    for (k, c) in cases.into_iter().enumerate() {
+        if shard.1 > 1 && k as u64 % shard.1 != shard.0 {
+            continue;
+        }
+        let nm = name.clone();
+        let h = std::thread::spawn(move || {
+            let mut s = Stats::new();
+            s.sample_limit = 1;
+            s.stratum(&nm, true);
+            s.eval(&c, check);
+            s.finish();
+            s
+        });
+        match h.join() {
+            Ok(s) => st.merge(s),
+            Err(_) => st.inconclusive.push(format!("a cold-start thread of stratum {:?} died", name)),
+        }
+    }
+    st.stratum(stratum, true);
+}
+
 pub fn jstr(v: &Value, k: &str) -> String {
     v.get(k).and_then(|x| x.as_str()).unwrap_or("").to_string()
 }
